@@ -302,6 +302,7 @@ func vNonLineEntries(sessions []robust.Id, rev uint64) []VEntry {
 			VEntry{Type: robust.DeleteSession, Session: s, Data: "bye"},
 			VEntry{Type: robust.DeleteSession, Session: s, Data: "Ping timeout (30m0s)"},
 			VEntry{Type: robust.DeleteSession, Session: s, Data: "x\ry"},
+			VEntry{Type: robust.DeleteSession, Session: s, Data: "x\nQUIT :y"},
 			VEntry{Type: robust.MessageOfDeath, Session: s, Data: "PANIC", ClientMessageId: 424242},
 		)
 	}
